@@ -181,9 +181,22 @@ Definition alt_matches (subkey : bool) (key_created : N) (attrs : list (bytes * 
   | _, _, _ => false
   end.
 
+(* Several valid self-signatures on one identity / binding signatures on one subkey: RFC 4880 5.2.3.3
+   recommends, and GnuPG implements, that the MOST RECENT one counts (getkey.c: sig->timestamp >=
+   sigdate, i.e. among signatures made in the same second the last one in the stream).  The
+   reference lists every valid self-signature as (flags created life); the description must equal
+   one with the maximal creation time - for equal maximal times RFC 4880 gives no rule and either
+   is accepted.  A fourth element 1 pins an alternative whatever its date (a self-signature whose
+   own validity period has passed: GnuPG skips it, a reader that does not look at the clock uses it). *)
+Definition alt_created (a : arg) : N := N_of_arg (arg_nth 1 a).
+Definition alt_pinned (a : arg) : bool := Z.eqb (arg_Z (arg_nth 3 a)) 1.
+Definition latest_alts (alts : list arg) : list arg :=
+  let mx := fold_right (fun a m => N.max (alt_created a) m) 0 alts in
+  filter (fun a => alt_pinned a || (alt_created a =? mx)) alts.
+
 Definition sig_attrs_ok (subkey : bool) (key_created : N) (attrs : list (bytes * bytes)) (alts : list arg) : bool :=
   Nat.eqb (count_attr (bs "Usage") attrs) 1 && Nat.eqb (count_attr (bs "Created") attrs) 1 &&
-  Nat.eqb (count_attr (bs "Expires") attrs) 1 && existsb (alt_matches subkey key_created attrs) alts.
+  Nat.eqb (count_attr (bs "Expires") attrs) 1 && existsb (alt_matches subkey key_created attrs) (latest_alts alts).
 
 (* key reference (fpr algo oid bits created ...) against the key attributes *)
 Definition key_attrs_ok (kr : arg) (attrs : list (bytes * bytes)) : option string :=
